@@ -625,6 +625,7 @@ func (r *report) runSpecial(name string) {
 		r.nextSkeleton()
 	case "globals-write":
 		r.globalsWrite()
+		r.compiledStateWrites()
 	default:
 		r.extraNotes = append(r.extraNotes, "unknown special analysis "+name)
 	}
